@@ -627,8 +627,11 @@ def gen_sel(rng, n, col, depth=0):
         if not col:
             return ["all"]
         return ["slice", rng.choice(["s0", "s1", None]), rng.choice(["s1", "s2", None]), "s"]
-    if r < 0.84:
+    if r < 0.80:
         return ["slice", rng.choice([None, -1, 0, 0, 1, 2]), rng.choice([None, -1, 0, 0, 1, 2, 5]), rng.choice(["v", "w", "w"])]
+    if r < 0.84:
+        # fractional bounds on an integer column (the model's ranges are integer-only: these lines are oracle-only)
+        return ["slice", rng.choice([None, -1.5, -0.5, 0.5, 1.5]), rng.choice([None, -1.5, -0.5, 0.5, 2.5]), rng.choice(["v", "w", "w"])]
     if r < 0.94 or depth > 0:
         return ["slice", rng.choice([None, 0, 1, -2]), rng.choice([None, 1, 3, -1]), rng.choice([None, 1, 2, -1])]
     return ["tuple", [gen_sel(rng, n, col, 1), gen_sel(rng, n, col, 1)]]
@@ -705,7 +708,10 @@ def gen_c08(rng, sess):
     for _ in range(rng.randint(3, 8)):
         sel = gen_sel(rng, len(col), col)
         for kind in rng.sample(["indices", "mask", "rows"], rng.randint(1, 3)):
-            sess.step(add_matches({"op": kind, "sel": sel}, col))
+            o = add_matches({"op": kind, "sel": sel}, col)
+            if '.5' in json.dumps(sel):
+                o["oracle_only"] = True
+            sess.step(o)
 
 
 def gen_c14(rng, sess):
